@@ -149,6 +149,10 @@ def edge_regions():
             # first recurs exactly at the end of the body
             if (b + delim).lower().find(delim.lower()) == len(b):
                 yield 'dollar-quoted', delim + b + delim, T.Literal, '$'
+                # third pass: the closing tag in another letter case closes too (the back-reference is matched under re.IGNORECASE)
+                for closer in dict.fromkeys([delim.upper(), delim.lower(), delim.swapcase()]):
+                    if closer != delim and closer.lower() == delim.lower():
+                        yield 'dollar-quoted', delim + b + closer, T.Literal, '$'
 
 
 def check_edge_regions(ctx, rng):
